@@ -284,6 +284,30 @@ def forkPoint (g : Graph) : List Nat → List Nat
   | [] => []
   | p :: rest => rest.foldl (fun acc q => commonAncestorsPos g acc [q]) [p]
 
+/-! ## merge point, forks -/
+
+/-- `MergePoint` arm: common descendants (inside `::visible_heads`) of all roots, then the
+members without a parent in the set.  `roots` is the evaluated operand (descending). -/
+def mergePointArm (g : Graph) (vh : List Nat) : List Nat → List Nat
+  | [] => []
+  | p :: rest =>
+    let cands := rest.foldl
+      (fun cands q => cands.filter (descendantsOf g cands [q]).contains)
+      (descendantsOf g vh [p])
+    cands.filter fun x => !(g.par x).any cands.contains
+
+/-- the `filter_map` of the `Forks` arm over the ancestors walk: `seen` is the bag of parent
+links of the positions visited so far (`child_counts`) -/
+def forksScan (g : Graph) : List Nat → List Nat → List Nat
+  | [], _ => []
+  | p :: rest, seen =>
+    if 2 ≤ seen.count p then p :: forksScan g rest (g.par p ++ seen)
+    else forksScan g rest (g.par p ++ seen)
+
+/-- `Forks` arm -/
+def forksArm (g : Graph) (heads : List Nat) : List Nat :=
+  forksScan g (walkAnc g.par false 0 g.size heads []) []
+
 /-! ## reachable -/
 
 /-- One round of growing `cur ⊆ dom` along parent/child edges inside `dom`. -/
@@ -375,6 +399,8 @@ inductive Expr where
   | headsRange (roots heads : Expr) (fp : Bool) (filter : Expr)
   | roots (x : Expr)
   | forkPoint (x : Expr)
+  | mergePoint (x : Expr)
+  | forks
   | latest (x : Expr) (count : Nat)
   | coalesce (a b : Expr)
   | notIn (x : Expr)
@@ -395,6 +421,8 @@ inductive RExpr where
   | headsRange (roots heads : RExpr) (fp : Bool) (filter : Option PExpr)
   | roots (x : RExpr)
   | forkPoint (x : RExpr)
+  | mergePoint (roots heads : RExpr)
+  | forks (heads : RExpr)
   | latest (x : RExpr) (count : Nat)
   | coalesce (a b : RExpr)
   | union (a b : RExpr)
@@ -422,6 +450,7 @@ def refsOf : Expr → List Nat
   | .headsRange r h _ f => refsOf r ++ refsOf h ++ refsOf f
   | .roots x => refsOf x
   | .forkPoint x => refsOf x
+  | .mergePoint x => refsOf x
   | .latest x _ => refsOf x
   | .coalesce a b => refsOf a ++ refsOf b
   | .notIn x => refsOf x
@@ -461,6 +490,8 @@ def resolve (g : Graph) (refs : List Nat) : Expr → RExpr
     .headsRange (resolve g refs r) (resolve g refs h) fp (filterOpt f (resolvePred g refs f))
   | .roots x => .roots (resolve g refs x)
   | .forkPoint x => .forkPoint (resolve g refs x)
+  | .mergePoint x => .mergePoint (resolve g refs x) (rVhor g refs)
+  | .forks => .forks (rVhor g refs)
   | .latest x n => .latest (resolve g refs x) n
   | .coalesce a b => .coalesce (resolve g refs a) (resolve g refs b)
   | .notIn x => .diff (rAll g refs) (resolve g refs x)
@@ -489,6 +520,8 @@ def resolvePred (g : Graph) (refs : List Nat) : Expr → PExpr
     .set (.headsRange (resolve g refs r) (resolve g refs h) fp (filterOpt f (resolvePred g refs f)))
   | .roots x => .set (.roots (resolve g refs x))
   | .forkPoint x => .set (.forkPoint (resolve g refs x))
+  | .mergePoint x => .set (.mergePoint (resolve g refs x) (rVhor g refs))
+  | .forks => .set (.forks (rVhor g refs))
   | .latest x n => .set (.latest (resolve g refs x) n)
   | .coalesce a b => .set (.coalesce (resolve g refs a) (resolve g refs b))
 end
@@ -523,6 +556,8 @@ def eval (g : Graph) : RExpr → List Nat
       roots (diffDesc (eval g h) roots)
   | .roots x => rootsOf g (eval g x)
   | .forkPoint x => forkPoint g (eval g x)
+  | .mergePoint r h => mergePointArm g (eval g h) (eval g r)
+  | .forks h => forksArm g (eval g h)
   | .latest x n => takeLatest g (eval g x) n
   | .coalesce a b => coalesceArm (eval g a) (eval g b)
   | .union a b => unionDesc (eval g a) (eval g b)
